@@ -140,6 +140,68 @@ def send_terminates(ctx):
     return z3.BoolVal(len(written(buf)) >= 1)
 
 
+class _Sink(object):
+    """a socket-like sink whose send() may fail (environment fault: the
+    peer reset the connection); `fail` is a symbolic input"""
+
+    def __init__(self, fail):
+        self.fail = fail
+        self.chunks = []
+
+    def send(self, data):
+        if self.fail:
+            raise IOError('connection reset by peer')
+        self.chunks.append(data)
+
+    def items(self):
+        out = []
+        for c in self.chunks:
+            out.extend(_b8(b) for b in bytes_items(c))
+        return out
+
+
+def _canonical(ne, out):
+    k = len(out)
+    conds = [z3.BoolVal(k >= 1)]
+    for i, b in enumerate(out):
+        digit = z3.Extract(7, 0, (ne >> (7 * i)) & 0x7F)
+        conds.append(b == (digit | (0x80 if i < k - 1 else 0)))
+    conds.append(ne < (1 << (7 * k)))
+    if k > 1:
+        conds.append(ne >= (1 << (7 * (k - 1))))
+    return z3.And(*conds)
+
+
+def send_history(ctx, steps=3, hi_bits=35):
+    """every history: a sequence of `steps` encodings on one thread, each to
+    its own sink, where any sink may fail (raise IOError from send) and any
+    value may be negative (rejected).  Whatever happened before, each
+    encoding that is delivered is the canonical encoding of its own number
+    and nothing else."""
+    T = _types()
+    conds = []
+    trace = []
+    for i in range(steps):
+        cls = T['VarInt' if not ctx.bool('long%d' % i) else 'VarLong']
+        n = ctx.int('n%d' % i, -4, (1 << hi_bits) - 1)
+        sink = _Sink(ctx.bool('fail%d' % i))
+        try:
+            cls.send(n, sink)
+            trace.append('ok')
+        except IOError:
+            trace.append('io')
+            conds.append(z3.BoolVal(not sink.chunks))
+            continue
+        except ValueError:
+            trace.append('neg')
+            conds.append(z3.And(E(n) < 0, z3.BoolVal(not sink.chunks)))
+            continue
+        conds.append(E(n) >= 0)
+        conds.append(_canonical(E(n), sink.items()))
+    note_key(ctx, 'C03:history:%s' % ','.join(trace))
+    return z3.And(*conds)
+
+
 def second_engine(ctx):
     """CrossHair on VarInt.size (second opinion, see xcheck/)"""
     from .common import crosshair_opinion
@@ -157,6 +219,13 @@ def instances(tier, seed):
                  budget_s=300, max_decisions=400),
         Instance('send_terminates', 'send_terminates', {}, W=96,
                  budget_s=300, max_decisions=64, conc_timeout_s=5),
+        Instance('send_history:2', 'send_history', {'steps': 2}, W=64,
+                 budget_s=300, max_decisions=400,
+                 note='history independence: earlier failed or rejected '
+                      'encodings leave nothing behind'),
+        Instance('send_history:3x14', 'send_history',
+                 {'steps': 3, 'hi_bits': 14}, W=64, budget_s=300,
+                 max_decisions=400),
         Instance('second_engine:crosshair', 'second_engine', {}, W=96,
                  budget_s=400, conc_timeout_s=5,
                  note='independent engine on VarInt.size; not deciding'),
@@ -166,6 +235,8 @@ def instances(tier, seed):
                  note='reference with max_bytes off by one must be refuted'),
     ]
     if tier == 'thorough':
+        out.append(Instance('send_history:3', 'send_history', {'steps': 3},
+                            W=64, budget_s=1200, max_decisions=400))
         out.append(Instance('sentinel:send_canonical', 'send_canonical',
                             {'hi_bits': 77, 'sentinel': True}, W=96,
                             budget_s=300, expect='violation',
